@@ -15,6 +15,9 @@ Why ==
   ELSE IF ~Ev.started THEN "the generated server cannot be set up from the documents it embeds"
   ELSE IF Ev.orig # Ev.input THEN "the embedded original document is not JSON-equal to the input document"
   ELSE IF Ev.served # Ev.input THEN "the document served at /swagger.json is not JSON-equal to the input document"
+  \* the generated main program loads the embedded documents itself (loads.Embedded(original, flattened))
+  ELSE IF Ev.mainRun /\ ~Ev.mainStarted THEN "the generated main program cannot be set up from the documents it embeds"
+  ELSE IF Ev.mainRun /\ Ev.mainServed # Ev.input THEN "the document served at /swagger.json by the generated main program is not JSON-equal to the input document"
   ELSE IF Ev.flatPaths # Ev.inputPaths THEN "the flattened embedded document describes different paths/operations/parameters/responses"
   ELSE IF Ev.flatSecurity # Ev.inputSecurity THEN "the flattened embedded document describes different security"
   ELSE IF Ev.missingDefs > 0 THEN "a definition of the input is missing from or different in the flattened embedded document"
